@@ -313,8 +313,6 @@ package actor
 //@   ensures  !old(c.zombie) && gcount(unregistered, c) > old(gcount(unregistered, c)) ==> len(c.children) == 0 && old(c.state) == 1 && c.state == 2
 //@   ensures  !old(c.zombie) && old(c.state) != 1 ==> gcount(unregistered, c) == old(gcount(unregistered, c)) && forall r vivid.ActorRef :: gcount(told, r, kKilledSys()) == old(gcount(told, r, kKilledSys()))
 
-//@ func (*System).removeFuturesByAgentPath
-//@   trusted
 // ---------------------------------------------------------------------------------------------
 // C08: which failures reach supervision. failed() is the one place that pauses the mailbox and reports to the
 // parent; failures(c) counts its calls. The behaviour is user code: it may return or panic (maypanic), it does
@@ -628,3 +626,42 @@ package actor
 //@   invariant forall r string :: !seen(r) ==> (r in s.jobKeys <==> old(r in s.jobKeys)) && s.jobKeys[r] == old(s.jobKeys[r])
 //@   invariant forall k *quartz.JobKey :: gcount(deleted, k) >= old(gcount(deleted, k))
 //@   invariant len(s.jobKeys) == old(len(s.jobKeys)) - seencount()
+
+// ---------------------------------------------------------------------------------------------
+// C04 / C10: the registration table of pending Asks (agent path -> future path -> agent ref) is shared between the
+// asking actors, the futures' closers (timer goroutines, repliers) and the kill path: every access - to the outer
+// map AND to the inner maps read out of it - under futureLock
+//@ guarded (*System).futureAgents by futureLock deep
+//@ func NewAgentRef
+//@   ensures agent != nil ==> result.0 != nil && fresh(result.0) && result.0.agent == agent && result.0.ref != nil && result.1 == nil
+//@ pure agentOK(a *AgentRef) bool = a != nil && a.ref != nil && a.agent != nil
+//@ func (*System).appendFuture
+//@   requires s.futureAgents != nil && agentOK(agentRef) && !held(s.futureLock)
+//@   modifies s.futureAgents[*], anymapof(s.futureAgents), anyold
+//@   ensures  a2p(agentRef) in s.futureAgents && s.futureAgents[a2p(agentRef)] != nil && f2p(agentRef) in s.futureAgents[a2p(agentRef)] &&
+//@            s.futureAgents[a2p(agentRef)][f2p(agentRef)] == agentRef
+//@ pure a2p(a *AgentRef) string = a.agent.path
+//@ pure f2p(a *AgentRef) string = a.ref.path
+// once a future has completed (its closer runs removeFuture) the system keeps no registration for it
+//@ func (*System).removeFuture
+//@   requires s.futureAgents != nil && agentOK(agentRef) && !held(s.futureLock)
+//@   modifies s.futureAgents[*], anymapof(s.futureAgents), anyold
+//@   ensures  !(a2p(agentRef) in s.futureAgents) || !(f2p(agentRef) in s.futureAgents[a2p(agentRef)])
+//@   ensures  forall p string :: p in s.futureAgents ==> len(s.futureAgents[p]) > 0 || p != a2p(agentRef)
+// the registry's futures are well-formed and nobody is inside their forwarder lock
+//@ pure regfut(s *System) bool = forall k any :: smhas(&s.actorContexts, k) && typeis(smval(&s.actorContexts, k), "*future.Future[vivid.Message]") ==>
+//@     !nilptr(smval(&s.actorContexts, k)) && future.futwf(unboxed(smval(&s.actorContexts, k), "*future.Future[vivid.Message]")) &&
+//@     !held(unboxed(smval(&s.actorContexts, k), "*future.Future[vivid.Message]").mu)
+// when an asking actor dies, every Ask it still waits for is completed with the given error (C04: "or with an
+// actor-dead error if the asking actor terminates first"); the table is read under its lock
+//@ func (*System).removeFuturesByAgentPath
+//@   callspec Close preserves regfut(s)
+//@   requires s.futureAgents != nil && !held(s.futureLock) && regfut(s)
+//@   modifies anyold, gmap(chclosed), gmap(piped), gmap(pipedn), ghost(calls_closer)
+// copying the paths, under the lock
+//@ loop (*System).removeFuturesByAgentPath#1
+//@   invariant held(s.futureLock)
+// completing the futures, outside the lock (their closers take it)
+//@ loop (*System).removeFuturesByAgentPath#2
+//@   modifies anyold, gmap(chclosed), gmap(piped), gmap(pipedn), ghost(calls_closer)
+//@   invariant regfut(s) && !held(s.futureLock)
